@@ -78,7 +78,20 @@ def execute(P, tset, mode, limname, dts, alphas, hmin=None):
     cls = P['cls']
     g = Geom(cls, P['faces'])
     m = gen.build_mesh(pf, cls, P['faces'])
-    phi = pf.CellVariable(m, P['vals'].copy(), gen.make_bc(pf, m, g, P['spec']))
+    BC = gen.make_bc(pf, m, g, dict(P['spec'], periodic=[]))
+    # a periodic axis is declared by the flag on its low side, its high side or both (library semantics: either suffices); the
+    # two executions of a pair draw the style independently
+    frng = gen.rng_for(*(list(P.get('flag_seed', [0])) + [4242]))
+    styles = {}
+    for k in P['spec']['periodic']:
+        st = str(frng.choice(['low', 'high', 'both', 'both']))
+        styles[k] = st
+        if st in ('low', 'both'):
+            getattr(BC, SIDES[k][0]).periodic = True
+        if st in ('high', 'both'):
+            getattr(BC, SIDES[k][1]).periodic = True
+    P['flag_styles'] = styles
+    phi = pf.CellVariable(m, P['vals'].copy(), BC)
     Df, uf = gen.facevar(pf, m, P['D']), gen.facevar(pf, m, P['u'])
     FL = pf.fluxLimiter(limname)
     out = []
@@ -291,8 +304,12 @@ def run_case(case):
     gq = Geom(Q['cls'], Q['faces'])
     gp = Geom(P['cls'], P['faces'])
     hmin = min(min(float(np.min(gg.w[k] * np.min(gg.hscale(k)))) for k in range(gg.nd)) for gg in (gp, gq))
+    P['flag_seed'] = list(case['seed']) + [1]
+    Q['flag_seed'] = list(case['seed']) + [2]
     lowres, gL = execute(P, tset, mode, limname, dts, alphas, hmin)
     highres, gH = execute(Q, tset, mode, limname, dts, alphas, hmin)
+    for st_ in list(P.get('flag_styles', {}).values()) + list(Q.get('flag_styles', {}).values()):
+        cov['periodic_flag:' + st_] = cov.get('periodic_flag:' + st_, 0) + 1
     mask = noncorner_mask(gH.full_shape())
     upw_per = kind == 'shift' and ('upwind' in tset) and np.any(P['u'][case['axis']] != 0)
     for step, (lo, hi) in enumerate(zip(lowres, highres)):
@@ -401,7 +418,7 @@ def plan(tier, seed):
 
 def floors(agg, tier):
     out = []
-    for k, need in (('pair:embed', 60), ('pair:permute', 40), ('pair:mirror', 40), ('pair:shift', 40), ('with_periodic', 30),
+    for k, need in (('pair:embed', 60), ('pair:permute', 40), ('pair:mirror', 40), ('pair:shift', 40), ('with_periodic', 30), ('periodic_flag:low', 20), ('periodic_flag:high', 20), ('periodic_flag:both', 20),
                     ('residual_checks', 100), ('direct_checks', 100)):
         if agg['cov'].get(k, 0) < need:
             out.append('%s < %d' % (k, need))
